@@ -8,22 +8,30 @@ import PQ.Lemmas.BulkProps
 > ordered queue that holds every distinct item of the sequence once with one of the priorities given for it; it never
 > panics and never yields a queue whose length disagrees with its contents.
 
-Model: `Serialize` writes the entries of the map in slot order, `s.map` (with the length hint `s.size`, which for a
-well-formed queue is `s.map.size`); `Deserialize` is `visit_seq` — insert pair after pair into an IndexMap, growing the
-two index tables only for new items — followed by `heap_build` of the target kind:
-`MaxQ.deserialize xs = MaxQ.heapBuild (Store.visitSeq xs)`, `DQ.deserialize xs = DQ.heapBuild (Store.visitSeq xs)`.
+Model: `Serialize` writes the entries of the map in slot order, `s.map` (announcing the length `s.size`, which for a
+well-formed queue is `s.map.size`); `Deserialize` is `visit_seq` — pre-allocate, then insert pair after pair into an
+IndexMap, growing the two index tables only for new items — followed by `heap_build` of the target kind.
+`deserialize hint xs`: `xs` are the pairs the input actually contains, `hint : Option Nat` is the length the input
+ANNOUNCES (`SeqAccess::size_hint()`): **untrusted input**, any natural number at all (a crafted length prefix of
+`2^64 - 1` in a binary format, say), unrelated to `xs.size`.  The code pre-allocates
+`with_capacity(min(hint, 4096))` — it never trusts the announced length — so
+`MaxQ.deserialize hint xs = reserveC (min h 4096) >> MaxQ.heapBuild (Store.visitSeq xs)` and likewise `DQ.deserialize`.
+Every theorem below is stated for EVERY `hint`; `C15_hint_never_faults` says the hint is irrelevant, and
+`C15_unbounded_prealloc_would_panic` shows what the cap is for: pre-allocating the announced length itself
+(`reserveC h`, the code before the fix) panics with "capacity overflow" on `h = 2^64 - 1`.
 In the model deserialization never even returns an error.
 -/
 namespace PQ
 open Store
 variable {P : Type} [LT P] [DecidableLT P] [LE P] [Std.IsLinearPreorder P] [Std.LawfulOrderLT P]
 
-/-- **deserializing as a `PriorityQueue` is total**: for EVERY pair sequence `xs` (repeated items included) it returns
+/-- **deserializing as a `PriorityQueue` is total**: for EVERY announced length `hint` (untrusted, unrelated to the
+input) and EVERY pair sequence `xs` (repeated items included) it returns
 a correctly ordered queue; its length agrees with its contents (`size = map.size` = number of distinct keys of `xs`);
 a key is held iff some pair of `xs` has it; the entry held for a key has a priority given for that key in `xs` and an
 item given for that key in `xs` — precisely: the priority of the LAST and the item of the FIRST pair with the key -/
-theorem C15_total_pq (xs : Array (Item × P)) :
-    ∃ s', MaxQ.deserialize xs = .ok s' ∧ MaxQ.Inv s' ∧
+theorem C15_total_pq (hint : Option Nat) (xs : Array (Item × P)) :
+    ∃ s', MaxQ.deserialize hint xs = .ok s' ∧ MaxQ.Inv s' ∧
       s'.size = s'.map.size ∧ s'.size = (xs.toList.map (·.1.key)).eraseDups.length ∧
       (∀ k, (s'.abs k).isSome = true ↔ ∃ e, e ∈ xs ∧ e.1.key = k) ∧
       (∀ k it p, s'.abs k = some (it, p) →
@@ -33,6 +41,7 @@ theorem C15_total_pq (xs : Array (Item × P)) :
         | none => none
         | some b => some (((xs.toList.find? (fun e => e.1.key == k)).map (·.1)).getD b.1, b.2)) := by
   obtain ⟨s', hrun, hwf, hmap, hsz, hm⟩ := MaxQ.heapBuild_spec (wf_visitSeq xs)
+  rw [← MaxQ.deserialize_eq hint xs] at hrun
   have habs : ∀ k, s'.abs k = IMap.lookup (visitSeq xs).map k := fun k => by
     show IMap.lookup s'.map k = _
     rw [hmap]
@@ -44,13 +53,13 @@ theorem C15_total_pq (xs : Array (Item × P)) :
     exact ⟨IMap.lookup_key hk, h1, h2⟩
   · rw [habs k]; exact lookup_visitSeq xs k
 
-example : bp_okR (MaxQ.deserialize #[(⟨1, 0⟩, 5), (⟨2, 0⟩, 8), (⟨1, 9⟩, 7), (⟨1, 3⟩, 6)]) (fun s' => MaxQ.Inv s' ∧
+example : bp_okR (MaxQ.deserialize (some 4) #[(⟨1, 0⟩, 5), (⟨2, 0⟩, 8), (⟨1, 9⟩, 7), (⟨1, 3⟩, 6)]) (fun s' => MaxQ.Inv s' ∧
     s'.size = 2 ∧ s'.map.size = 2 ∧ s'.abs 1 = some (⟨1, 0⟩, 6) ∧ s'.abs 2 = some (⟨2, 0⟩, 8) ∧ s'.abs 3 = none) := by
   decide +kernel
 
-/-- **deserializing as a `DoublePriorityQueue` is total**: the same for the other kind -/
-theorem C15_total_dpq (xs : Array (Item × P)) :
-    ∃ s', DQ.deserialize xs = .ok s' ∧ DQ.Inv s' ∧
+/-- **deserializing as a `DoublePriorityQueue` is total**: the same for the other kind (every `hint`, every `xs`) -/
+theorem C15_total_dpq (hint : Option Nat) (xs : Array (Item × P)) :
+    ∃ s', DQ.deserialize hint xs = .ok s' ∧ DQ.Inv s' ∧
       s'.size = s'.map.size ∧ s'.size = (xs.toList.map (·.1.key)).eraseDups.length ∧
       (∀ k, (s'.abs k).isSome = true ↔ ∃ e, e ∈ xs ∧ e.1.key = k) ∧
       (∀ k it p, s'.abs k = some (it, p) →
@@ -60,6 +69,7 @@ theorem C15_total_dpq (xs : Array (Item × P)) :
         | none => none
         | some b => some (((xs.toList.find? (fun e => e.1.key == k)).map (·.1)).getD b.1, b.2)) := by
   obtain ⟨s', hrun, hwf, hmap, hsz, hm⟩ := DQ.heapBuild_spec (wf_visitSeq xs)
+  rw [← DQ.deserialize_eq hint xs] at hrun
   have habs : ∀ k, s'.abs k = IMap.lookup (visitSeq xs).map k := fun k => by
     show IMap.lookup s'.map k = _
     rw [hmap]
@@ -71,45 +81,89 @@ theorem C15_total_dpq (xs : Array (Item × P)) :
     exact ⟨IMap.lookup_key hk, h1, h2⟩
   · rw [habs k]; exact lookup_visitSeq xs k
 
-example : bp_okR (DQ.deserialize DQ.exV) (fun s' => s'.size = 8 ∧ s'.map.size = 8 ∧ s'.abs 2 = some (⟨2, 0⟩, 99) ∧
+example : bp_okR (DQ.deserialize none DQ.exV) (fun s' => s'.size = 8 ∧ s'.map.size = 8 ∧ s'.abs 2 = some (⟨2, 0⟩, 99) ∧
     bp_okR (DQ.peekMin s') (fun e => e = some (⟨4, 0⟩, 10)) ∧
     bp_okR (DQ.peekMax s') (fun e => e.2 = some (⟨2, 0⟩, 99))) := by decide +kernel
 
-/-- **round trip**, for every well-formed store `s` — in particular a correctly ordered queue of EITHER kind
+/-- **round trip**, for every announced length `hint` (a faithful serializer announces `some s.size`, but nothing
+depends on it) and every well-formed store `s` — in particular a correctly ordered queue of EITHER kind
 (`MaxQ.Inv s` and `DQ.Inv s` both contain `s.WF`) — and BOTH target kinds: deserializing what `s` serializes to
 (its entries in slot order, `s.map`) succeeds and gives a correctly ordered queue `t` of the target kind with exactly
 the same map (same entries, payloads included, in the same slots: slot-ordered entries have no duplicate keys, so every
 insertion appends), hence the same contents and length; `t` compares equal to `s` with the crate's `PartialEq`, both
 ways round -/
-theorem C15_roundtrip [DecidableEq P] {s : Store P} (h : s.WF) :
-    (∃ t, MaxQ.deserialize s.map = .ok t ∧ MaxQ.Inv t ∧ t.map = s.map ∧ t.abs = s.abs ∧ t.size = s.size ∧
+theorem C15_roundtrip [DecidableEq P] {s : Store P} (h : s.WF) (hint : Option Nat) :
+    (∃ t, MaxQ.deserialize hint s.map = .ok t ∧ MaxQ.Inv t ∧ t.map = s.map ∧ t.abs = s.abs ∧ t.size = s.size ∧
       Store.eqv s t = true ∧ Store.eqv t s = true) ∧
-    (∃ t, DQ.deserialize s.map = .ok t ∧ DQ.Inv t ∧ t.map = s.map ∧ t.abs = s.abs ∧ t.size = s.size ∧
+    (∃ t, DQ.deserialize hint s.map = .ok t ∧ DQ.Inv t ∧ t.map = s.map ∧ t.abs = s.abs ∧ t.size = s.size ∧
       Store.eqv s t = true ∧ Store.eqv t s = true) := by
   have hv : (visitSeq s.map).map = s.map := bp_visitSeq_map h.nodup
   have hvs : (visitSeq s.map).size = s.size := by
     rw [(wf_visitSeq s.map).size_eq_map_size, hv, h.map_size]
   constructor
   · obtain ⟨t, hrun, hwf, hmap, hsz, hm⟩ := MaxQ.heapBuild_spec (wf_visitSeq s.map)
+    rw [← MaxQ.deserialize_eq hint s.map] at hrun
     have hmap' : t.map = s.map := hmap.trans hv
     have habs : t.abs = s.abs := by funext k; show IMap.lookup t.map k = _; rw [hmap']
     have he : Store.eqv s t = true := (C14_store_eqv_iff h hwf).2 (fun k => by rw [hmap'])
     exact ⟨t, hrun, ⟨hwf, hm⟩, hmap', habs, hsz.trans hvs, he, C14_store_symm h hwf he⟩
   · obtain ⟨t, hrun, hwf, hmap, hsz, hm⟩ := DQ.heapBuild_spec (wf_visitSeq s.map)
+    rw [← DQ.deserialize_eq hint s.map] at hrun
     have hmap' : t.map = s.map := hmap.trans hv
     have habs : t.abs = s.abs := by funext k; show IMap.lookup t.map k = _; rw [hmap']
     have he : Store.eqv s t = true := (C14_store_eqv_iff h hwf).2 (fun k => by rw [hmap'])
     exact ⟨t, hrun, ⟨hwf, hm⟩, hmap', habs, hsz.trans hvs, he, C14_store_symm h hwf he⟩
 
 /-- a `PriorityQueue` deserialized as a `DoublePriorityQueue` and that one deserialized as a `PriorityQueue` again -/
-example : MaxQ.Inv bp_exP ∧ bp_okR (DQ.deserialize bp_exP.map) (fun t => t.map = bp_exP.map ∧ t.size = 5 ∧
+example : MaxQ.Inv bp_exP ∧ bp_okR (DQ.deserialize (some bp_exP.size) bp_exP.map) (fun t => t.map = bp_exP.map ∧ t.size = 5 ∧
     Store.eqv bp_exP t = true ∧
     bp_okR (DQ.peekMin t) (fun e => e = some (⟨4, 40⟩, 1)) ∧
-    bp_okR (MaxQ.deserialize t.map) (fun u => MaxQ.Inv u ∧ u.map = bp_exP.map ∧ Store.eqv t u = true ∧
+    bp_okR (MaxQ.deserialize (some t.size) t.map) (fun u => MaxQ.Inv u ∧ u.map = bp_exP.map ∧ Store.eqv t u = true ∧
       MaxQ.peek u = some (⟨2, 20⟩, 9))) := by decide +kernel
+
+/-- **the announced length never makes deserialization fault, and never matters**: for EVERY `hint` (any natural number:
+the input is untrusted — e.g. `2^64 - 1`) and EVERY pair sequence, `deserialize hint xs` is not the capacity-overflow
+panic `Fault.capacity` (nor any other fault) — for either kind — and it equals `deserialize none xs`, the run with no
+announced length at all: the hint influences neither the success nor the resulting queue. -/
+theorem C15_hint_never_faults (hint : Option Nat) (xs : Array (Item × P)) :
+    (MaxQ.deserialize hint xs ≠ .error .capacity ∧ DQ.deserialize hint xs ≠ .error .capacity) ∧
+    (∀ f, MaxQ.deserialize hint xs ≠ .error f ∧ DQ.deserialize hint xs ≠ .error f) ∧
+    MaxQ.deserialize hint xs = MaxQ.deserialize none xs ∧ DQ.deserialize hint xs = DQ.deserialize none xs := by
+  have e1 : MaxQ.deserialize hint xs = MaxQ.deserialize none xs := by
+    rw [MaxQ.deserialize_eq, MaxQ.deserialize_eq]
+  have e2 : DQ.deserialize hint xs = DQ.deserialize none xs := by
+    rw [DQ.deserialize_eq, DQ.deserialize_eq]
+  obtain ⟨s1, h1, _⟩ := C15_total_pq hint xs
+  obtain ⟨s2, h2, _⟩ := C15_total_dpq hint xs
+  have hall : ∀ f, MaxQ.deserialize hint xs ≠ .error f ∧ DQ.deserialize hint xs ≠ .error f := by
+    intro f
+    rw [h1, h2]
+    exact ⟨fun h => (nomatch h), fun h => (nomatch h)⟩
+  exact ⟨hall .capacity, hall, e1, e2⟩
+
+/-- a hostile announced length: `2^64 - 1` elements announced, two pairs present -/
+example : bp_okR (MaxQ.deserialize (some (2 ^ 64 - 1)) #[(⟨1, 0⟩, 5), (⟨2, 0⟩, 8)]) (fun s' => MaxQ.Inv s' ∧ s'.size = 2 ∧
+      s'.abs 1 = some (⟨1, 0⟩, 5) ∧ s'.abs 2 = some (⟨2, 0⟩, 8)) ∧
+    bp_okR (DQ.deserialize (some (2 ^ 64 - 1)) #[(⟨1, 0⟩, 5), (⟨2, 0⟩, 8)]) (fun s' => s'.WF ∧ s'.size = 2 ∧
+      bp_okR (DQ.peekMin s') (fun e => e = some (⟨1, 0⟩, 5))) := by decide +kernel
+
+omit [LT P] [DecidableLT P] [LE P] [Std.IsLinearPreorder P] [Std.LawfulOrderLT P] in
+/-- **remark: what the cap is for.**  The un-capped variant — pre-allocating the ANNOUNCED length itself,
+`with_capacity(h)`, i.e. `reserveC h` in place of `reserveC (min h 4096)`, which is what `visit_seq` did before the fix —
+is the capacity-overflow panic for the announced length `h = 2^64 - 1` (indeed for every `h ≥ capLimit = 2^61`),
+whatever the input actually contains: a panic (denial of service) caused by untrusted input alone.  The capped request
+is always granted. -/
+theorem C15_unbounded_prealloc_would_panic :
+    reserveC (2 ^ 64 - 1) = .error .capacity ∧ (∀ h, h ≥ capLimit → reserveC h = .error .capacity) ∧
+    (∀ h, reserveC (min h 4096) = .ok ()) ∧
+    (∀ (x : R (Store P)), (reserveC (2 ^ 64 - 1) >>= fun _ => x) = .error .capacity) :=
+  ⟨reserveC_of_ge (by decide), fun _ h => reserveC_of_ge h, reserveC_min_4096,
+    fun x => reserveC_bind_of_ge x (by decide)⟩
 
 end PQ
 
 #print axioms PQ.C15_total_pq
 #print axioms PQ.C15_total_dpq
 #print axioms PQ.C15_roundtrip
+#print axioms PQ.C15_hint_never_faults
+#print axioms PQ.C15_unbounded_prealloc_would_panic
